@@ -38,6 +38,10 @@ type concScenario struct {
 	// Skew[round][uploader] is added to Start for that uploader\'s run (later
 	// rounds may be days later; uploaders of one round may differ by hours).
 	Skew [][]time.Duration
+	// Foreign: local/ also holds a report for the first week under another
+	// name ending in the week's date (a saved copy): the same week, so at most
+	// one of the two may be acknowledged
+	Foreign string
 }
 
 type c08strategy struct {
@@ -76,6 +80,11 @@ func genConcScenario(r *verifrt.Rand, i int) *concScenario {
 	s.N = 2 + r.Intn(3)
 	s.Rounds = 1 + r.Intn(3)
 	statuses := []int{200, 200, 200, 500, 503, 400, 404, 0, 501, 502, 504, 505, 507, 511, 521, 599, 401, 403, 413, 429, 499}
+	if i%7 == 3 {
+		s.Foreign = verifrt.Pick(r, []string{"saved-", "copy of ", "x", "2-"})
+		// (a client error answered to one of the two files says nothing about the other: keep to success and server errors)
+		statuses = []int{200, 200, 500, 503, 0, 502, 599}
+	}
 	for j, n := 0, r.Intn(4); j < n; j++ {
 		s.Script = append(s.Script, statuses[r.Intn(len(statuses))])
 	}
@@ -138,7 +147,7 @@ func TestVerifUploadConc(t *testing.T) {
 	c07 := verifrt.NewResult("C07.conc")
 	c08 := verifrt.NewResult("C08.sched")
 	c07.Rule = "2-4 uploaders (virtual threads) run the real uploader.Run over one directory with 1-2 finished weeks under the token-passing scheduler (scheduling point at every fs/HTTP call and lock), 1-3 rounds, strategies park-at-k (all k) / PCT / sticky / random, with and without kills. Oracle: from the fs-event log no report file is created or replaced twice; every local.<week>.json equals the reference aggregate and never changes once it exists; counter files are removed only after a report for their week exists. distinct = (scenario, trace) hashes; non-trivial = trace switches uploaders at least twice"
-	c08.Rule = "same runs against a scripted local upload server answering each request 200, a 4xx (400/401/403/404/413/429/499), a 5xx (500-505/507/511/521/599) or dropping the connection, kills parking an uploader for ever after any fs/HTTP call (deferred cleanup never runs). Oracle over the server log and directory snapshots: per week at most one distinct acknowledged body, and it is the complete reference report; no request for a week arrives while upload/<week>.json exists; a week whose requests in a round were only 5xx/unanswered keeps local/<week>.json; a 4xx answer removes it without creating upload/<week>.json; without kills and with a server that ends up answering 200, every uploadable week is acknowledged exactly once within the rounds (+1 extra round allowed after a 5xx). distinct = histories"
+	c08.Rule = "same runs against a scripted local upload server answering each request 200, a 4xx (400/401/403/404/413/429/499), a 5xx (500-505/507/511/521/599) or dropping the connection, kills parking an uploader for ever after any fs/HTTP call (deferred cleanup never runs); in a seventh of the histories local/ also holds a saved copy of a week's report under another name ending in the week's date. Oracle over the server log and directory snapshots: per week at most one distinct acknowledged body, and it is the complete reference report; no request for a week arrives while upload/<week>.json exists; a week whose requests in a round were only 5xx/unanswered keeps local/<week>.json; a 4xx answer removes it without creating upload/<week>.json; without kills and with a server that ends up answering 200, every uploadable week is acknowledged exactly once within the rounds (+1 extra round allowed after a 5xx). distinct = histories"
 	nb := 32
 	if verifrt.Thorough() {
 		nb = 128
@@ -185,7 +194,7 @@ func TestVerifUploadConc(t *testing.T) {
 		}
 	}
 	c07.Require("exclusive-create-lost", "report-existed-at-check", "strategy:park", "strategy:pct")
-	c08.Require("lock-contention", "status:200", "status:4xx", "status:5xx", "status:dropped", "kill", "kill-between-ack-and-marker", "kill-holding-lock", "retry-after-5xx", "all-acked-once")
+	c08.Require("second-report-file-for-week", "lock-contention", "status:200", "status:4xx", "status:5xx", "status:dropped", "kill", "kill-between-ack-and-marker", "kill-holding-lock", "retry-after-5xx", "all-acked-once")
 	for _, x := range []*verifrt.Result{c07, c08} {
 		if err := x.Write(); err != nil {
 			t.Fatal(err)
@@ -210,6 +219,28 @@ func runConcScenario(c07, c08 *verifrt.Result, base string, s *concScenario, rnd
 		files[f.FileName] = f
 		w := f.End.Format("2006-01-02")
 		byWeek[w] = append(byWeek[w], verifref.SourceFile{Build: f.Build, Counts: f.Counts})
+	}
+	foreignWeek := ""
+	if s.Foreign != "" {
+		w := s.weeks[0]
+		foreignWeek = w
+		// two pending report files for one week: the uploader's own name and a
+		// saved copy (different X, hence different bodies)
+		for k, name := range []string{s.Foreign + w + ".json", w + ".json"} {
+			x := 0.3 + 0.1*float64(k)
+			rep := map[string]any{"Week": w, "LastWeek": "", "X": x, "Config": "v1.2.3"}
+			var progs []map[string]any
+			for _, pd := range s.Cfg.Uploadable(verifref.Aggregate(byWeek[w]), x) {
+				progs = append(progs, map[string]any{"Program": pd.Program, "Version": pd.Version, "GoVersion": pd.GoVersion, "GOOS": pd.GOOS, "GOARCH": pd.GOARCH, "Counters": pd.Counters, "Stacks": pd.Stacks})
+			}
+			rep["Programs"] = progs
+			b, _ := json.MarshalIndent(rep, "", " ")
+			if k == 1 && i%14 == 3 {
+				continue // only the saved copy
+			}
+			os.WriteFile(filepath.Join(td.dir.LocalDir(), name), b, 0o666)
+		}
+		c08.Hit("second-report-file-for-week")
 	}
 	srv := newFakeSrv()
 	defer srv.close()
@@ -411,7 +442,7 @@ func runConcScenario(c07, c08 *verifrt.Result, base string, s *concScenario, rnd
 				w := f.End.Format("2006-01-02")
 				since, ok := reportSince[w]
 				_, existedBefore := firstSeen["local."+w+".json"]
-				if (!ok || since > e.Seq) && !existedBefore && round == 0 {
+				if (!ok || since > e.Seq) && !existedBefore && round == 0 && w != foreignWeek {
 					c07.Violate("file-removed-before-report", fmt.Sprintf("%s removed counter file %s before any report for week %s existed", e.Actor, base, w), rp())
 				}
 			case inLocal && e.Op == "ReadFile" && strings.HasSuffix(base, ".count") && e.Err != "":
@@ -457,6 +488,11 @@ func runConcScenario(c07, c08 *verifrt.Result, base string, s *concScenario, rnd
 					}
 				}
 				_, lerr := os.Stat(filepath.Join(td.dir.LocalDir(), w+".json"))
+				if w == foreignWeek && lerr != nil {
+					// the saved copy is this week's pending report (the uploader
+					// builds none of its own next to it)
+					_, lerr = os.Stat(filepath.Join(td.dir.LocalDir(), s.Foreign+w+".json"))
+				}
 				_, uerr := os.Stat(filepath.Join(td.dir.UploadDir(), w+".json"))
 				if only5xx && lerr != nil {
 					c08.Violate("report-lost-after-5xx", fmt.Sprintf("week %s: every request was answered 5xx or not at all, but local/%s.json is gone", w, w), rp())
@@ -571,6 +607,9 @@ func runConcScenario(c07, c08 *verifrt.Result, base string, s *concScenario, rnd
 	}
 	// ---- C07: final reports
 	for _, w := range s.weeks {
+		if w == foreignWeek {
+			continue // a report for this week existed beforehand: none is built
+		}
 		lp := filepath.Join(td.dir.LocalDir(), "local."+w+".json")
 		lr, _, err := readReport(lp)
 		if err != nil {
